@@ -12,6 +12,8 @@ use std::sync::Arc;
 
 const POOL: [&str; 5] = ["x", "xx", "xxx", "y", "var0"];
 const ODD_POOL: [&str; 5] = ["ξ", "č1", "状態", "_x", "X²"];
+/// state-variable names spelled like constants, keywords and operators (inside braces they are just names)
+const KEYWORD_POOL: [&str; 8] = ["1", "0", "true", "False", "in", "EX", "V", "3"];
 
 /// All rewritten texts of `f` (description, text).
 pub fn rewrites(f: &F, ctx: &NetCtx, rich: bool) -> Vec<(String, String)> {
@@ -26,6 +28,12 @@ pub fn rewrites(f: &F, ctx: &NetCtx, rich: bool) -> Vec<(String, String)> {
     }
     // ... and to names with non-ASCII letters / digits, a leading underscore, capitals
     for a in style::binder_assignments(f, &ODD_POOL, if rich { 60 } else { 12 }) {
+        let mut st = base.clone();
+        st.binder_names = a.clone();
+        out.push((format!("rename binders to {a:?}"), style::render(f, names, &st)));
+    }
+    // ... and to names that are spelled like a constant, the keyword `in` or an operator
+    for a in style::binder_assignments(f, &KEYWORD_POOL, if rich { 80 } else { 24 }) {
         let mut st = base.clone();
         st.binder_names = a.clone();
         out.push((format!("rename binders to {a:?}"), style::render(f, names, &st)));
@@ -267,7 +275,7 @@ pub fn run(tier: &str) -> Result<Report, String> {
     }
     rep.evaluations = total_rewrites;
     rep.distinct_nontrivial = distinct_rewrites;
-    rep.rule = format!("for every closed plain formula with <= {m} nodes, every template formula, the family Q1{{x}}: ((Q2{{y}}: A) op B) and its jump version @{{x}}: ((@{{y}}: A) op B), all chains of two binary operators in both association orders, duplicate templates and every extended formula with <= 3 nodes, on {which:?}: all scope-respecting assignments of the names {POOL:?} to its binders (consistent renaming incl. permutations of the internal names x, xx, xxx) and of the names {ODD_POOL:?}, renamings of binders to the names of network variables, whitespace patterns (none where legal, double, tab, newline, NBSP, mixed; everywhere and at each single token boundary), 1-2 redundant parentheses around each sub-formula and around all, the minimal-parentheses rendering and the minimal rendering with one sub-formula keeping its parentheses, long spellings of each/all hybrid operators, constant spellings; the rewritten text must evaluate (model_check_formula / model_check_extended_formula_dirty) to the same set as the canonical text. distinct_nontrivial = number of rewritten texts that differ from the canonical text and from each other (per formula and network), counted with a hash set; evaluations additionally counts the canonical text");
+    rep.rule = format!("for every closed plain formula with <= {m} nodes, every template formula, the family Q1{{x}}: ((Q2{{y}}: A) op B) and its jump version @{{x}}: ((@{{y}}: A) op B), all chains of two binary operators in both association orders, duplicate templates and every extended formula with <= 3 nodes, on {which:?}: all scope-respecting assignments of the names {POOL:?} to its binders (consistent renaming incl. permutations of the internal names x, xx, xxx) and of the names {ODD_POOL:?} and {KEYWORD_POOL:?}, renamings of binders to the names of network variables, whitespace patterns (none where legal, double, tab, newline, NBSP, mixed; everywhere and at each single token boundary), 1-2 redundant parentheses around each sub-formula and around all, the minimal-parentheses rendering and the minimal rendering with one sub-formula keeping its parentheses, long spellings of each/all hybrid operators, constant spellings; the rewritten text must evaluate (model_check_formula / model_check_extended_formula_dirty) to the same set as the canonical text. distinct_nontrivial = number of rewritten texts that differ from the canonical text and from each other (per formula and network), counted with a hash set; evaluations additionally counts the canonical text");
     rep.assumptions.push("the rewrite generator only produces meaning-preserving variants by construction (consistent renaming respecting scopes, whitespace only between tokens, balanced extra parentheses)".into());
     Ok(rep)
 }
